@@ -1181,6 +1181,11 @@ func CheckSignatureFromKey(publicKey interface{}, algo SignatureAlgorithm, signe
 		}
 		return
 	case ed25519.PublicKey:
+		// ed25519.Verify panics on a key of the wrong size, and parsePublicKey
+		// accepts short ones.
+		if len(pub) != ed25519.PublicKeySize {
+			return errors.New("x509: invalid Ed25519 public key size")
+		}
 		if !ed25519.Verify(pub, digest, signature) {
 			return errors.New("x509: Ed25519 verification failure")
 		}
